@@ -8,6 +8,12 @@ ENGINE = "lean-proof+correspondence"
 NOT_YET = "not yet claimed: model, theorems and correspondence for this property are still being built (see DESIGN.md build order); Lean proof is applicable"
 
 CLAIMED = {
+    "C09": dict(
+        text="Proof + correspondence: for all try/with-free statement skeletons outside the classes loopElse and secondVisitSeed (`while True`) - assignments, uses, calls, if/else, while/for with break/continue, return/raise, any size and nesting - c09_reported_sound_partial proves that every definition and the unbound state reaching a use on a strict CFG path is in what the Lean model of FunctionScope reports; c09_reported_precise_partial proves exactness on loop-free skeletons; c09_check_reads_collect holds for the full syntax. The model equals pyanalyze on every generated skeleton incl. try/except/else/finally, with, loop-else and dead code (0 disagreements on 106k cases in thorough); for try/with and precision in loops the verdict rests on that correspondence plus search against two independent oracles (a Python CFG reaching-definitions analysis in strict and liberal mode, and real execution with opaque conditions driven by all bit strings). Eight defect classes, each with a decided witness and listed as a finding.",
+        note="Trusted: Lean kernel + 3 standard axioms; sampled correspondence (exhaustive <=4 statements quick / <=5 thorough before thinning); Spec/Flow.lean cross-checked every run against a Python CFG analysis and CPython execution; strict/liberal conventions where the property is silent are listed in the evidence assumptions. Not covered by theorems: try/with, loop precision, nested functions, global/nonlocal; del and dead code are outside the property."),
+    "C14": dict(
+        text="Model: `unite` (unite_values), `Ty.beq` (==, hash-aware on unions exactly as MultiValuedValue.__eq__), `Ty.hashEq` (hash equality), `subst` (substitute_typevars) in Core/Union.lean + Core/Assign.lean. Proved for all terms: hash-equal implies equal; equal implies hash-equal outside the classes unionOrder/unhashable (witnesses); uniting never nests unions; Never is the identity; members(unite vs) = union of the members of the operands (unite_mem, full strength, with beq_mem); associativity as an identity under flatness; commutativity / idempotence / merging of equal alternatives / substitution-commutes-with-uniting under explicit decidable hypotheses, each exception class (unhashable, unionOrder, annotatedUnion, dupUnion, substCollapse) with a decided witness and listed as a finding; substitution is the identity on closed flat terms and replaces every mapped variable. Tie: unite/==/hash/substitute_typevars of the real Values vs the model on generated triples; all laws evaluated on the implementation incl. an implementation-only stream for TypedDict/DictIncomplete/Callable values; spec `mem` vs the CPython reference.",
+        note="Trusted: Lean kernel + 3 standard axioms; hash equality modelled structurally (no accidental collisions; compared only where a == b); object identity invisible to the model (the harness builds fresh Values per occurrence); 'the union accepts each operand' is checked on the implementation only."),
     "C17": dict(
         text="Machine-checked for all templates (any character list, str and bytes) and all literal arguments: outside 10 decidable exception classes, the Lean model of pyanalyze's % checker (regex scanner, lint, tuple/mapping accept, result type) reports whenever the Lean spec of CPython's % formatter raises, and is silent up to the two documented lint rules when it succeeds (percent_reports_if_raises_partial, percent_silent_if_ok_partial, percent_result_type_partial); on str.format templates without ':' '.' '[' '!' that do not mix numbering modes, pyanalyze's parser and accounting agree with CPython's (format_plain_iff_partial, format_accounting_iff_partial). The full statements are shown false on 14 decided witnesses (each a listed finding). str.format paths, specs and conversions are covered by model, correspondence and search only (classes fmtPath/fmtSpec), not by theorems. Tie: live regex vs scanner, unit and end-to-end message streams vs model, real % / .format evaluation vs spec, on every run.",
         note="Trusted: Lean kernel + 3 axioms; hand-written model tied to /repo by unit and e2e differential streams; CPython spec validated against real evaluation each run; the scanner equals the regex only on the tested small-alphabet strings; ASCII-digit \\d; literal arguments only; the .format parser is fuelled with 2*len+2."),
@@ -15,17 +21,17 @@ CLAIMED = {
         text="Proof: for valid stacks of chained config files of any depth, any command line and any module path, lookup_precedence_partial shows the Lean model of parse_config_file/_parse_config_section/from_option_list/get_value_for returns exactly the value of the documented precedence sentence (first-match and concatenating options, disable_all desugaring), outside decidable exception classes each with a decided witness; full-strength theorems cover the sort-key lookup on arbitrary instance lists, command-line precedence, single-file configurations, acceptance of valid configurations, and rejection of recursive/missing inclusion and of everything the parser checks; bad_config_rejected_partial covers the rejection clause. Model and spec are tied to the code on every run: model vs pyanalyze through real TOML files and the real prepare_constructor_kwargs (value, error kind, is_error_code_enabled), spec vs an independent Python implementation; the option registry table is regenerated from the live registry and re-checked by the kernel.",
         note="Trusted: Lean kernel + 3 axioms; tomli/pathlib (the model starts at the decoded table, file names are atoms); sampled correspondence (exhaustive family of 13104 stacks complete in thorough, depth <= 2 complete in quick); PyObjectSequence/IgnoredPaths options, extend_config inside override tables and duplicate-module ties are outside the theorems."),
     "C19": dict(
-        text="Proof + regenerated finite table. For literal subscripts the Lean model of _sequence_common_getitem_impl is proved, for all lengths and all int keys, to report exactly CPython's IndexError and to return exactly the indexed element (getitem_literal_iff, getitem_literal_value); for partly variadic members it is proved sound for every expansion (getitem soundness theorem). The operator fallback protocol is proved to report iff CPython's dunder dispatch raises TypeError, under explicit decidable hypotheses. The property's finite quantifier (34 literals x 13 binary / 3 unary operators, 26 attribute names, 15 indices = 16354 operations) is enumerated from the live tree and from CPython on every run and re-proved by the kernel (ops_table_agree, ops_table_conforms, ops_table_spec) outside five decidable exception classes, each a listed finding with a witness.",
+        text="Proof + regenerated finite table. For literal subscripts the Lean model of _sequence_common_getitem_impl is proved, for all lengths and all int keys, to report exactly CPython's IndexError and to return exactly the indexed element (getitem_literal_iff, getitem_literal_value); for partly variadic members it is proved sound for every expansion (getitem_variadic_sound, full strength after the repair 07b1f6d). The operator fallback protocol is proved to report iff CPython's dunder dispatch raises TypeError, under explicit decidable hypotheses. The property's finite quantifier (34 literals x 13 binary / 3 unary operators, 26 attribute names, 15 indices = 16354 operations) is enumerated from the live tree and from CPython on every run and re-proved by the kernel (ops_table_agree, ops_table_conforms, ops_table_spec) outside five decidable exception classes, each a listed finding with a witness.",
         note="Trusted: Lean kernel + 3 axioms; hand-written models tied to the code by differential streams on every run (getitem, binop unit facts, attribute fallback); values canonicalised as (type, exact repr); CPython 3.12.1 as oracle; cpyBinop is a dunder-level abstraction of binary_op1 validated on every binary row; % on str/bytes, ordering comparisons and exceptions other than TypeError/AttributeError/IndexError are outside the property."),
     "C03": dict(
-        text="Model `ca` (Core/Assign.lean) of Value.can_assign follows value.py/type_object.py branch by branch; class-level facts (nominal relation incl. protocol checks, generic bases) are a table regenerated from the live tree and the kernel re-checks `tableOk liveTable` on every run. Theorem assign_known_eq_mem_partial: for every table satisfying the laws and every well-formed static type and object outside three exception classes (variadicTuple, frozensetLiteral, protoClassObj — each a listed finding with a proved witness) can_assign(T, Literal o) = structural membership. Tie: ca vs pyanalyze on thousands of generated (type, object) pairs per run, spec `mem` vs a CPython-isinstance reference; property searched directly through runtime.is_assignable and `x: T = literal` diagnostics.",
-        note="Trusted: Lean kernel + 3 standard axioms; class table translator; correspondence is sampled; TypedDict/Callable/TypeVar types are outside the Lean model (searched on the implementation only); oracle decisions for NewType / str-as-Sequence / promotion under type[] are stated in DESIGN §6/C03."),
+        text="Model `ca` (Core/Assign.lean) of Value.can_assign follows value.py/type_object.py branch by branch; class-level facts (nominal relation incl. protocol checks, generic bases) are a table regenerated from the live tree and the kernel re-checks `tableOk liveTable` on every run. Proved (assign_known_eq_mem_partial, by induction over all terms): for every table satisfying the laws and every well-formed static type and object outside three exception classes (variadicTuple, frozensetLiteral, protoClassObj - each a listed finding with a proved witness) and the property-silent region (str/bytes against generic ABCs), can_assign(T, Literal o) = structural membership. Tie: ca vs pyanalyze on thousands of generated (type, object) pairs per run, spec `mem` vs a CPython-isinstance reference, runtime route (type_from_runtime) decoded structurally; property searched directly through runtime.is_assignable and `x: T = literal` diagnostics; TypedDict types are covered by an implementation-only search stream.",
+        note="Trusted: Lean kernel + 3 standard axioms; class table translator; sampled correspondence; TypedDict/Callable/TypeVar types are outside the Lean model (TypedDict searched on the implementation only); oracle decisions for NewType / str-as-Sequence / promotion under type[] are stated in DESIGN 6/C03."),
     "C04": dict(
-        text="Same model `ca`. Proved for all terms, tables and both modes: Any accepts and is accepted (assign_any_left/right), Never accepted everywhere, union on the right iff every member, union accepts what a member accepts (partial: outside Annotated[Never], with a proved witness). Soundness for membership, reflexivity and exclude-any monotonicity are decided on every run by the correspondence (model = implementation on generated pairs) plus the direct search on the implementation (witness objects drawn from B, reference membership); their Lean theorems are in progress and the level text will change when they land.",
-        note="Trusted: Lean kernel + 3 standard axioms; class table translator; sampled correspondence; documented leniencies L1 (bare generics incl. `type` and frozenset literals), L2 (fixed-length sequence form accepting a homogeneous generic), L4 (Any) excluded from soundness; protocol checks that depend on the value (generic protocol vs Enum class, protocol vs type[...]) are searched but not modelled."),
+        text="Same model `ca`. Proved for every class table with tableOk and all terms (induction, no bound): Any accepts and is accepted, Never accepted everywhere, union on the right iff every member, a union accepts what a member accepts (unconditional after the repair 637d1c5), object accepts everything (assign_object_top), every well-formed type accepts itself (assign_refl, both modes), 'Any only matches Any' never turns a rejection into an acceptance (exclude_any_monotone), and soundness for membership (assign_sound_partial: A accepts B and o in B imply o in A) outside the documented leniencies (strict04: bare generics incl. `type` and frozenset literals; fixed-length form accepting a homogeneous generic) and five decidable exception classes (protoDown, virtualMeta, metaclassTyped, newtypeBase, protoClassObj - each a listed finding with a proved witness replayed on pyanalyze) plus a spec artefact (literalEq: nested bool/int equality in container literals). `tableOk liveTable` is re-proved by the kernel on every run. Tie: ca vs pyanalyze on generated pairs in both modes; search: witness objects drawn from B against the reference membership, and all laws evaluated on the implementation.",
+        note="Trusted: Lean kernel + 3 standard axioms; class table translator; sampled correspondence; leniencies L1/L2/L4 excluded from soundness as the property says; protocol checks that depend on the value (generic protocol vs Enum class, protocol vs type[...]) are searched but not modelled; exclude-any protocol verdicts are history dependent (C10) and left out of that correspondence stream."),
     "C05": dict(
-        text="Proof: bind_literal_iff (Props/C05.lean) shows, for every def header and every literal call shape with no bound on sizes, that the Lean model of Signature.bind_arguments fails exactly when the Lean model of CPython's binder raises; both models are tied to the code on every run (model vs pyanalyze end-to-end and at unit level incl. bound positions; spec vs real calls). Star-argument clause: decided by correspondence + exhaustive expansion search (theorem for it not yet written).",
-        note="Trusted: Lean kernel + 3 standard axioms; the correspondence is sampled (exhaustive for headers of <=3 parameters in quick, <=4 in thorough); AST->Signature plumbing is exercised by the e2e stream, not modelled."),
+        text="Proved for every def header and every call, no bound on sizes: bind_literal_iff (the Lean model of Signature.bind_arguments fails exactly when the model of CPython's binder raises, literal call shapes), bind_star_accept (a call with *args/**kwargs of unknown length that the model accepts has a concrete expansion that binds - full strength) and bind_star_reject_partial (a rejected call has no binding expansion taking at least one element from every star argument, outside the class starThenKw, a listed finding with a proved witness); corollaries through preprocess_args. Both models are tied to the code on every run (model vs pyanalyze end-to-end and at unit level incl. bound positions; spec vs real calls; star calls against exhaustively enumerated expansions).",
+        note="Trusted: Lean kernel + 3 standard axioms; sampled correspondence (exhaustive for headers of <=3 parameters in quick, <=4 in thorough); AST->Signature plumbing is exercised by the e2e stream, not modelled; ELLIPSIS/ParamSpec parameters outside the model."),
 }
 
 
